@@ -539,4 +539,16 @@ theorem encNameCategory_noncomm {a b : Bytes × Nat} (ha : a.1.length < 42949672
   obtain ⟨h₃, _⟩ := List.append_inj h₂ (by simp [be32_length])
   exact hne (Prod.ext h₁ (be32_inj hva hvb h₃))
 
+theorem nodup_filter_keys {ν} (p : Bytes × ν → Bool) (es : List (Bytes × ν)) (hn : (es.map Prod.fst).Nodup) :
+    ((es.filter p).map Prod.fst).Nodup :=
+  hn.sublist ((List.filter_sublist (l := es)).map Prod.fst)
+
+theorem importsFormatted_perm {es₁ es₂ : List (Bytes × Bytes)} (hp : es₁.Perm es₂)
+    (hn : (es₁.map Prod.fst).Nodup) : importsFormatted es₁ = importsFormatted es₂ := by
+  unfold importsFormatted byPath
+  rw [sortedBy_key_perm_eq Prod.fst bytesLe bytesLe_total bytesLe_trans bytesLe_antisymm
+        (hp.filter _) (nodup_filter_keys _ es₁ hn),
+      sortedBy_key_perm_eq Prod.fst bytesLe bytesLe_total bytesLe_trans bytesLe_antisymm
+        (hp.filter _) (nodup_filter_keys _ es₁ hn)]
+
 end Determinism
